@@ -422,7 +422,9 @@ def _is_table(e: ast.AST) -> bool:
     if not isinstance(e, ast.Dict) or not e.keys:
         return False
     for k, v in zip(e.keys, e.values):
-        if not (isinstance(k, ast.Constant) and isinstance(k.value, str)):
+        str_key = isinstance(k, ast.Constant) and isinstance(k.value, str)
+        tup_key = isinstance(k, ast.Tuple) and k.elts and all(isinstance(x, ast.Constant) and isinstance(x.value, str) for x in k.elts)
+        if not (str_key or tup_key):
             return False
         if not (isinstance(v, (ast.Constant, ast.Lambda, ast.Name, ast.Attribute)) or _is_literal(v)):
             return False
@@ -466,6 +468,20 @@ def specialise(e, world):
                         return a.args[0]
                 if all(fn(a).startswith("kv_") for a in x.args[0].args):
                     return KEYERROR
+            if fn(x) in ("getitem", "get") and fn(x.args[0]) == "dict" and isinstance(x.args[1], sp.Tuple) and all(getattr(k_, "is_Symbol", False) and k_.name.startswith("'") for k_ in x.args[1]):
+                # lookup with a tuple of names as the key
+                for a in x.args[0].args:
+                    if fn(a) == "kv" and a.args[0] == x.args[1]:
+                        return a.args[1]
+                if all(fn(a).startswith("kv") for a in x.args[0].args):
+                    return (x.args[2] if len(x.args) > 2 else sp.Symbol("None")) if fn(x) == "get" else KEYERROR
+            if fn(x) == "get" and fn(x.args[0]) == "dict" and getattr(x.args[1], "is_Symbol", False) and x.args[1].name.startswith("'"):
+                key = "kv_" + x.args[1].name.strip("'")
+                for a in x.args[0].args:
+                    if fn(a) == key:
+                        return a.args[0]
+                if all(fn(a).startswith("kv") for a in x.args[0].args):
+                    return x.args[2] if len(x.args) > 2 else sp.Symbol("None")
             if fn(x) == "call" and fn(x.args[0]) == "lambda_" and len(x.args[0].args[0]) == len(x.args) - 1:
                 params, body = x.args[0].args
                 return body.xreplace(dict(zip(params, x.args[1:])))
@@ -477,7 +493,7 @@ def specialise(e, world):
                 if r is not None:
                     return r
             return x
-        e = e.replace(lambda x: fn(x) in ("getitem", "call") or isinstance(x, sp.Piecewise), step)
+        e = e.replace(lambda x: fn(x) in ("getitem", "get", "call") or isinstance(x, sp.Piecewise), step)
         if e == before:
             break
     return e
@@ -939,7 +955,8 @@ def holds(lit, assign) -> Optional[bool]:
                 return None if r is None else (r if isinstance(lit, sp.Eq) else not r)
             return None
         lit_like = lambda x: x.is_Symbol and (x.name.startswith("'") or x.name == "None")   # noqa: E731
-        value_like = lambda x: getattr(getattr(x, "func", None), "__name__", "") in ("lambda_", "dict") or isinstance(x, sp.Tuple)   # noqa: E731
+        value_like = lambda x: getattr(getattr(x, "func", None), "__name__", "") in ("lambda_", "dict") or isinstance(x, sp.Tuple) or \
+            (getattr(x, "is_Symbol", False) and x.name.split(".")[0] in ("np", "numpy", "math", "scipy"))   # noqa: E731
         if (lit_like(a) and a.name == "None" and value_like(b)) or (lit_like(b) and b.name == "None" and value_like(a)):
             return isinstance(lit, sp.Ne)          # a function value / container is not None
         if lit_like(a) and lit_like(b):
